@@ -2,7 +2,7 @@
 from analysis.flow import must_cross, return_points, term_pt, trace_op, definitely_init, init_at_point, yields
 from analysis.guards import facts_at, _variants_for_discr
 from analysis.mir import callee_matches, op_place
-from analysis.sym import Sym, render, is_call, const_val, walk
+from analysis.sym import Sym, render, is_call, const_val, walk, switch_alternatives
 from rules.common import texts, blocks_assigning_variant, ok_exits
 
 EXPLANATION = (
@@ -134,7 +134,7 @@ def result_switches(b, sym, facts, wbb):
                     succ_t, fail_t = (tt, ff) if ok_when_true else (ff, tt)
                     out_bool.append((i, sorted(set(succ_t)), sorted(set(fail_t))))
             continue
-        if e[0] != "discr" or not mentions(e, wbb):
+        if e[0] != "discr" or not (mentions(e, wbb) or any(mentions(a, wbb) for a in switch_alternatives(sym, i))):
             continue
         vm = _variants_for_discr(b, facts, t, i)
         if not vm:
@@ -214,10 +214,31 @@ def analyse_conn(facts, R, path, role, is_async, floor=2):
         R.check(len(distinct) >= layers, "no-write-after-failed-write", fn, what + "/all-result-layers-tested",
                 "`%s` yields %d nested Result layer(s) (e.g. timeout(..) around the write) but only %d is/are tested: an inner write error "
                 "is dropped and the loop carries on" % (nm, layers, len(distinct)), t.get("span"), "%d layer(s), %d tested" % (layers, len(distinct)))
+        # one future awaited at alternative places (`match limit { Some(d) => timeout(d, fut).await.ok(), None => Some(fut.await) }`):
+        # a test belongs to the poll whose value it examines, and binds the paths that run through that poll
+        polls = [pi for pi, pt_ in b.calls() if (pt_["callee"]["name"] == "poll" or "{closure#0}" in pt_["callee"]["path"]) and pt_["args"]
+                 and pi != i and mentions(sym.op(pt_["args"][0]), i)]
+        if len(polls) > 1:
+            for pi in polls:
+                mine = [x for x in sw if any(mentions(a, pi) for a in [sym.op(b.term(x[0])["on"])] + switch_alternatives(sym, x[0]))]
+                lay = _count_result_layers(b.local_ty(b.term(pi)["dest"]["l"])) if not b.term(pi)["dest"]["p"] else 0
+                tested = {render(sym.op(b.term(x[0])["on"])) for x in mine}
+                R.check(len(tested) >= max(lay, 1), "no-write-after-failed-write", fn, what + "/await@%s" % _ordinal([(p_, None) for p_ in polls], pi),
+                        "`%s` is awaited at %s, where its value has %d Result layer(s), but %d is/are tested on that path: a failed write goes unnoticed and "
+                        "the loop carries on" % (nm, b.term(pi).get("span"), lay, len(tested)), b.term(pi).get("span"), "%d layer(s), %d tested" % (lay, len(tested)))
         for (s, succ_t, fail_t) in sw:
+            if b.term(s).get("threaded_switch"):
+                # a test on a specialised path whose outcome is known by construction (an `Err(..)` literal or a `?` residual
+                # travelling back to the caller): it decides nothing; the test that sent control down this path is judged
+                continue
             # events: entering a success arm; the arm blocks have the switch as their only predecessor in built MIR
             evs = [(x, 0) for x in succ_t]
-            w = must_cross(b, [term_pt(b, i)], prim_pts, evs)
+            start = term_pt(b, i)
+            if len(polls) > 1:
+                mine = [pi for pi in polls if any(mentions(a, pi) for a in [sym.op(b.term(s)["on"])] + switch_alternatives(sym, s))]
+                if len(mine) == 1:
+                    start = term_pt(b, mine[0])
+            w = must_cross(b, [start], prim_pts, evs)
             R.check(w is None, "no-write-after-failed-write", fn, what + "/switch@" + _ordinal_sw(sw, s),
                     "after `%s` a further write on the same connection is reachable without passing the success edge of the test "
                     "of its result" % nm, t.get("span"), "next write only via the Ok/Continue edge", path=w)
